@@ -386,10 +386,27 @@ def dict_stream(ctx, res, n):
                 dob = (lambda c, nk, nv: c.setdefault(nk(k), nv(v))) if with_default else (lambda c, nk, nv: c.setdefault(nk(k), nv(None)))
                 args = [(k, v if with_default else None)]
             elif r < 0.72:
-                pairs = list(dict(pairs).items())
+                import operator
+                shape = rng.choice(["dict", "dict", "list", "tuple", "zip", "gen", "items"])
+                if shape in ("dict", "items"):
+                    pairs = list(dict(pairs).items())
                 name, wire = "ior", {"op": "ior", "pairs": [[F.enc_val(a), F.enc_val(b)] for a, b in pairs]}
-                do = lambda c: c.__ior__(dict(pairs))
-                dob = lambda c, nk, nv: c.__ior__({nk(a): nv(b) for a, b in pairs})
+
+                def rhs(ps, shape=shape):
+                    # `d |= x` takes a mapping or any iterable of key/value pairs, like dict.update
+                    if shape == "dict":
+                        return dict(ps)
+                    if shape == "items":
+                        return dict(ps).items()
+                    if shape == "list":
+                        return [tuple(p) for p in ps]
+                    if shape == "tuple":
+                        return tuple(tuple(p) for p in ps)
+                    if shape == "zip":
+                        return zip([p[0] for p in ps], [p[1] for p in ps])
+                    return (tuple(p) for p in ps)
+                do = lambda c, pairs=pairs: operator.ior(c, rhs(pairs))
+                dob = lambda c, nk, nv, pairs=pairs: operator.ior(c, rhs([(nk(a), nv(b)) for a, b in pairs]))
                 args = pairs
             elif r < 0.82:
                 k = rng.choice(list(plain) + ["zz"]) if plain else "zz"
